@@ -66,7 +66,7 @@ def main():
         mp = os.path.join(sd, d, "meta.json")
         if os.path.exists(mp):
             meta = json.load(open(mp))
-            cat.append(dict(name="seeded-" + d, patch=f"seeded/{d}/patch.diff", checks=meta.get("checks") or [meta["property"]]))
+            cat.append(dict(name="seeded-" + d, patch=f"seeded/{d}/patch.diff", checks=meta.get("checks") or [meta["property"]], expect=meta.get("expect", 1)))
     sel = sys.argv[1:]
     exact = set()
     for a in list(sel):
